@@ -267,6 +267,10 @@ class Evaluator:
         return v[1]
 
     def ev(self, e, env):
+        if isinstance(e, dict) and e.get("mac") and e.get("k") in ("block", "if") and str(e["mac"][0]).startswith("debug_assert"):
+            # a debug assertion yields no value and changes nothing unless it panics — and whether anything can panic is C04's
+            # question, not the evaluated function's result
+            return ("unit",)
         e = hir.simp(e)
         k = e.get("k")
         if k == "lit":
@@ -302,7 +306,13 @@ class Evaluator:
                 v = self._const_value(p)
                 if v is not None:
                     return v
+            if e.get("dk") in ("Fn", "AssocFn") and e.get("ty"):
+                if not hasattr(self, "_fn_ty"):
+                    self._fn_ty = {}
+                self._fn_ty[p] = str(e["ty"])      # `str::parse::<u8>` passed as a value: the instance's signature
             return ("enum", p)
+        if k == "__val":
+            return e["v"]
         if k == "block":
             env = Env(env) if isinstance(env, Env) else Env(_as_env(env))
             v = ("unit",)
@@ -760,6 +770,12 @@ class Evaluator:
                 return ("err", args[0])
             if self._is_tuple_ctor(path, len(args)):
                 return ("ctor", path) + tuple(args)          # a tuple-variant / tuple-struct constructor used as a function
+        if clo[0] == "enum" and clo[1].startswith(("core::", "alloc::", "std::", "<core::", "<alloc::", "<std::")):
+            # a std function item used as a value (`.map(str::parse::<u8>)`): the call it stands for
+            sig = getattr(self, "_fn_ty", {}).get(clo[1], "")
+            ret = sig.split(" -> ", 1)[1].rsplit(" {", 1)[0] if " -> " in sig else ""
+            node = {"k": "call", "callee": clo[1], "args": [{"k": "__val", "v": a} for a in args], "ty": ret}
+            return self.call(node, Env())
         if clo[0] != "closure":
             raise Unrecognised("call of a non-closure value")
         node, cenv = clo[1], clo[2]
